@@ -19,7 +19,7 @@ RULE = ('fresh loads of samples with resolutions 2^8..2^18 and non-powers of two
         'starting at 0 or logicle with negative events; distinct = digest(sample, call)')
 ASSUMPTIONS = ['logicle edges compared with the reference transform at rtol 1e-9 (2e-5 for float32 samples)']
 MIN_CHECKS = {'quick': 6000, 'thorough': 150000}
-REQUIRED_COUNTERS = ['chk:hist_bins', 'chk_hist_centre_linear', 'chk_hist_centre_log', 'chk:list-vs-single', 'chk:refusal']
+REQUIRED_COUNTERS = ['chk:hist_bins', 'chk_hist_centre_linear', 'chk_hist_centre_log', 'chk:list-vs-single', 'chk:refusal', 'chk:history']
 
 
 def run(ctx):
@@ -104,6 +104,20 @@ def run(ctx):
                                      'n-default' if nb is None else ('n-list' if isinstance(nb, list) else 'n'),
                                      sc if isinstance(sc, str) else 'scale-list', 'kw' if kw else '-'),
                           nontrivial=nt, distinct_key=core.digest(cid, c), sample=d if cid[1] < 2 and c < 2 else None)
+        # history: the answer must not depend on which bins were asked for before on the same object
+        sh = fresh()
+        seq = []
+        for step in range(3):
+            p = int(rng.integers(D))
+            scl = str(rng.choice(['log', 'linear', 'logicle']))
+            nbh = None if (rng.random() < 0.4 and max(spec['ranges']) <= 5000) else int(rng.integers(2, 100))
+            seq.append((p, nbh, scl))
+            o1 = core.attempt(lambda: sh.hist_bins(p, nbh, scl))
+            o2 = core.attempt(lambda: fresh().hist_bins(p, nbh, scl))
+            ctx.counters['chk:history'] += 1
+            if not o1.raised and not o2.raised:
+                ctx.check(np.array_equal(np.asarray(o1.value), np.asarray(o2.value)), 'hist_bins:answer-depends-on-earlier-calls', cid,
+                          sequence=seq, state=state)
         # unknown scale is refused
         for bad in ('lin', 'Logicle', 'symlog', None, 3):
             s = fresh()
